@@ -7,6 +7,8 @@ d  dispatch: every integrate() takes the _ham kernel for Hamiltonian systems on 
 
 a-memo  caches of compiled right-hand sides (hv.memo)
 b (added)  right-hand side at special states (a canonical pair / all of Q exactly zero); __init__ stores every Jacobian block unchanged
+
+d (round 3)  twin agreement of options: per integrator and branch the Hamiltonian and the generic kernel receive equal tolerances, limits, tables and grid
 """
 from __future__ import annotations
 
